@@ -209,8 +209,6 @@ func init() {
 	}
 	reg(lp+"Tracer", func(fr *frame, args []Value) Value { return (*Value)(nil) })
 	reg(lp+"AddTracer", func(fr *frame, args []Value) Value { return Tuple{args[0], (*Value)(nil)} })
-	reg("github.com/safing/portbase/utils.SafeFirst16Bytes", func(fr *frame, args []Value) Value { return fr.e.strConst("<data>") })
-	reg("github.com/safing/portbase/utils.SafeFirst16Chars", func(fr *frame, args []Value) Value { return fr.e.strConst("<data>") })
 
 	// ---- time ----
 	reg("time.Now", func(fr *frame, args []Value) Value { return fr.e.timeValue() })
